@@ -16,10 +16,12 @@ import (
 type c13rig struct {
 	env   types.EnvType
 	incFn types.MalType
+	restFn types.MalType
 	bm    []model.BuiltinModel
 }
 
 var fnVal = V{K: model.KFn}
+var restFnVal = V{K: model.KFn, S: "rest"} // (fn [& xs] xs)
 
 func c13Alphabet() []V {
 	L, Vc, I, S := model.List, model.Vec, model.Int, model.Str
@@ -29,16 +31,19 @@ func c13Alphabet() []V {
 		L(), L(I(1)), L(I(1), I(2), I(3)), Vc(), Vc(I(1)), Vc(I(1), I(2), I(3)),
 		mp(), mp(kw("a"), I(1)), model.MapOf(model.MapEntry{K: a, V: I(1)}, model.MapEntry{K: b, V: model.Nil}),
 		model.SetOf(), model.SetOf(a, model.Key{S: "a"}),
-		Vc(Vc(I(1)), mp(kw("a"), Vc(I(2)))), fnVal,
+		Vc(Vc(I(1)), mp(kw("a"), Vc(I(2)))), fnVal, restFnVal,
 	}
 }
 
 func c13Small() []V {
 	L, Vc, I := model.List, model.Vec, model.Int
-	return []V{model.Nil, I(1), kw("a"), L(I(1), I(2), I(3)), Vc(I(1), I(2), I(3)), mp(kw("a"), I(1)), model.SetOf(model.Key{Kw: true, S: "a"}), L(), fnVal, I(0), Vc(kw("a"))}
+	return []V{model.Nil, I(1), kw("a"), L(I(1), I(2), I(3)), Vc(I(1), I(2), I(3)), mp(kw("a"), I(1)), model.SetOf(model.Key{Kw: true, S: "a"}), L(), fnVal, I(0), Vc(kw("a")), restFnVal}
 }
 
 func (rg *c13rig) implArg(v V) types.MalType {
+	if v.K == model.KFn && v.S == "rest" {
+		return rg.restFn
+	}
 	if v.K == model.KFn {
 		return rg.incFn
 	}
@@ -123,6 +128,7 @@ func init() {
 				panic("c13 inc fn")
 			}
 			rg.incFn = f
+			rg.restFn, _, _ = lx.Eval(context.Background(), lx.MustRead("(fn [& xs] xs)"), rg.env)
 		}
 		alpha := c13Alphabet()
 		small := c13Small()
@@ -185,7 +191,9 @@ func init() {
 				b, args := directCase(i)
 				parts := []string{b.Name}
 				for _, a := range args {
-					if a.K == model.KFn {
+					if a.K == model.KFn && a.S == "rest" {
+						parts = append(parts, "rest-fn")
+					} else if a.K == model.KFn {
 						parts = append(parts, "inc-fn")
 					} else {
 						parts = append(parts, a.Lisp())
